@@ -476,6 +476,12 @@ int main(void)
 		if (!br_ssl_engine_closed(&cc) && unread && hs_calls == 1 && cc.application_data != 1) {
 			CHECK(br_ssl_engine_recvapp_buf(&cc, &l0) == NULL, "close discards unread application data");
 		}
+		/* the discard must really happen (not merely become invisible because the coroutine cleared the
+		   application-data flag): no received plaintext may stay pending in the input buffer */
+		if (!br_ssl_engine_closed(&cc) && unread) {
+			CHECK(cc.ixa == cc.ixb, "after close no unread application data stays pending in the input buffer");
+			WITNESS_POINT("close with unread data");
+		}
 		WITNESS_POINT("close");
 	}
 #elif OP == OP_RENEG
